@@ -30,10 +30,16 @@ def hexconj(st, t, n=None):
         from . import hexlang
 
         ok = hexlang.hex_missing_semantic(hexlang.current(), st, t, n) == []
+    if not ok:
+        from .c15 import _validated_by_exact_checker
+
+        ok = _validated_by_exact_checker(st, t, n)
     return ok
 
 
 def missing_hexconj(st, t, n=None):
+    if hexconj(st, t, n):
+        return []
     out = []
     if not st.holds(("ok", CallT("ext:bytes.fromhex", [t]))):
         out.append("bytes.fromhex(%s) succeeded" % show(t))
